@@ -141,17 +141,21 @@ theorem removeFirst_subset (n : Name) : ∀ (l : List Name), ∀ m ∈ removeFir
       · exact Or.inl h
       · exact Or.inr (ih m h)
 
-theorem astep_special (cfg : ACfg) (st : ASt) (k : Kind) (up : Bool) (s : PStr) :
+theorem toUpper_cased (up : Bool) (u : Nat) (h : 65 ≤ u ∧ u ≤ 90) : toUpperAscii (cased up u) = u := by
+  cases up <;> simp [cased, toUpperAscii] <;> omega
+
+theorem astep_special (cfg : ACfg) (st : ASt) (k : Kind) (up : Nat → Bool) (s : PStr) :
     astep cfg st (specialEv k up s) = (st, special (specialText k s).2 (specialText k s).1, []) := by
   cases k with
   | comment => rfl
   | pi => rfl
-  | doctype => cases up <;> simp [specialEv, astep, specialText, kwDoctype]
+  | doctype => simp [specialEv, astep, specialText, kwDoctype]
   | cdata =>
     have h : startsWithUpper cdataPrefix (kwCData up ++ s) = true := by
-      cases up <;> simp [startsWithUpper, cdataPrefix, kwCData, toUpperAscii]
+      have e91 : toUpperAscii 91 = 91 := by decide
+      simp [startsWithUpper, cdataPrefix, kwCData, toUpper_cased, e91]
     simp only [specialEv, astep, h, if_true, specialText]
-    cases up <;> simp [kwCData]
+    simp [kwCData]
   | decl =>
     simp only [specialEv, astep, specialText]
     split <;> rfl
